@@ -94,6 +94,9 @@ func c16Run(r *core.Run) {
 	if !o.PreHistory(r) || !o.Build() {
 		return
 	}
+	if t.Int(5, "c16.otherapi") == 1 {
+		OtherAPICalls(r, o.Node.SP, 3)
+	}
 	prevRelay := -1 // -1 none yet, 0 absent, 1 present
 	seq := ""
 	for call := 0; call < nCalls && !r.Failed(); call++ {
